@@ -117,6 +117,12 @@ def parseOp (kind : String) (kv : KV) : Option DOp :=
   | "reimp" => some (.k .reimport)
   | "tx" => some (.tx (kv.get "c") (kv.get "holder")
       (if kv.get "call" == "burn" then .burn (natOf (kv.get "amt")) else .transfer (kv.get "to") (natOf (kv.get "amt"))))
+  | "txb" => some (.txBatch (kv.get "c") (kv.get "holder")
+      ((listOf (kv.get "calls")).filterMap (fun e =>
+        match e.splitOn ":" with
+        | ["burn", a] => some (.burn (natOf a))
+        | ["xfer", to, a] => some (.transfer to (natOf a))
+        | _ => none)))
   | "sd" => some (.sd (kv.get "c"))
   | "dep" => some (.dep (kv.get "c") (kv.get "by") (natOf (kv.get "sup")))
   | _ => none
@@ -197,6 +203,24 @@ def runHonest (env : Env) (cfg : Cfg) (w : World TState) (op : DOp) (rec : List 
          { ok := true, rej := "", resp := r, st := w'.st, tok := some w'.evm.t, evmBad := bad,
            evmNote := if bad then s!"model-answers={flat w'.evm.log}" else "" }
        | .error e => fail e)
+  | .txBatch c h calls =>
+    -- every call of the transaction runs first (a reverting call reverts the transaction), then the hook sees the whole receipt
+    let step1 : Option (TState × List Log) → HolderCall → Option (TState × List Log) := fun acc call =>
+      match acc with
+      | none => none
+      | some (t, logs) =>
+        (match holderCall cfg t c h call with
+         | none => none
+         | some (t1, l1) => some (t1, logs ++ l1))
+    (match calls.foldl step1 (some (w.evm, [])) with
+     | none => fail (.evm "execution reverted")
+     | some (t1, logs) =>
+       match postTx env (loggedO cfg) { st := w.st, evm := { t := t1, log := [] } } logs with
+       | .ok (w', r) =>
+         let bad := !ansEq w'.evm.log rec
+         { ok := true, rej := "", resp := r, st := w'.st, tok := some w'.evm.t, evmBad := bad,
+           evmNote := if bad then s!"model-answers={flat w'.evm.log}" else "" }
+       | .error e => fail e)
   | .sd c => { ok := true, rej := "", resp := .none, st := w.st, tok := some (selfdestruct w.evm c), evmBad := false, evmNote := "" }
   | .dep c by_ sup =>
     (match deployExternal w.evm c by_ sup with
@@ -251,7 +275,7 @@ def devClass (d : String) : String :=
   | "bal+1" | "bal-1" | "balnil" | "balbad" => "bal"
   | "amt+1" | "amt-1" => "amt"
   | "false" | "falsemoved" | "retempty" | "retbad" | "ret2" | "qnil" => "ret"
-  | "approval" | "approvalfirst" | "notopics" | "otherlog" => "log"
+  | "approval" | "approvalfirst" | "approval1" | "approval4" | "notopics" | "otherlog" => "log"
   | k => k
 
 def ownerTag : Option Pair → String
@@ -276,6 +300,9 @@ def branchOf (s : State) (t : TState) : DOp → String
     let o := ownerTag (match KMap.get? s.reg.byAddr c with | some i => s.reg.getPair i | none => none)
     (match call with | .burn _ => "tx-burn-" | .transfer to _ => if to == "m.erc20" then "tx-tomod-" else "tx-xfer-") ++ o ++
       (if t.hasCode c then "" else "-nocode")
+  | .txBatch c _ calls =>
+    let o := ownerTag (match KMap.get? s.reg.byAddr c with | some i => s.reg.getPair i | none => none)
+    s!"tx-batch{calls.length}-" ++ o ++ (if t.hasCode c then "" else "-nocode")
   | .sd _ => "selfdestruct"
   | .dep _ _ _ => "deploy"
 
